@@ -17,6 +17,8 @@ def parseSlice (s : String) : Option SliceI :=
   -- pair given as std::tuple, and the compile-time valued kinds: same values, other C++ types
   | ["t", a, b] => do let a ← a.toInt?; let b ← b.toInt?; pure (SliceI.range a b)
   | ["I", a] => a.toInt?.map SliceI.idx
+  | ["E", a] => a.toInt?.map SliceI.idx      -- an unscoped enum / a class type convertible to index_type: an index like any other
+  | ["C", a] => a.toInt?.map SliceI.idx
   | ["R", a, b] => do let a ← a.toInt?; let b ← b.toInt?; pure (SliceI.range a b)
   | ["S", a, b, c] => do let a ← a.toInt?; let b ← b.toInt?; let c ← c.toInt?; pure (SliceI.strided a b c)
   | ["Q", a, b, c] => do let a ← a.toInt?; let b ← b.toInt?; let c ← c.toInt?; pure (SliceI.strided a b c)
